@@ -141,6 +141,12 @@ def theorem_names(prop_id: str):
 
 # the source tie: which SrcTie modules concern which property, and the translated functions each one needs
 SRC_TIE = {
+    'C03': {'Block': ['Block1014.write', 'Block1014.finalise']},
+    'C04': {'Block': ['Block1014.write', 'Block1014.finalise']},
+    'C05': {'Unblock': ['Unblock1014.read', 'Block1014.write', 'Block1014.finalise']},
+    'C07': {'Pds': ['_pds_to_dict', '_icc_to_dict', '_pds_to_de']},
+    'C08': {'Pds': ['_pds_to_dict', '_icc_to_dict', '_pds_to_de']},
+    'C12': {'Pds': ['_pds_to_dict', '_icc_to_dict', '_pds_to_de']},
     'C14': {'Misc': ['_get_tsp', '_pan_prefix']},
     'C15': {'Card': ['calculate_check_digit', 'validate_check_digit', 'add_check_digit', 'mask']},
     'C16': {'Card': ['calculate_check_digit', 'validate_check_digit', 'add_check_digit', 'mask'],
